@@ -86,6 +86,14 @@ def gen(rng, tier):
         c = L.gen(rng)                  # landuse: writer and reader, both file styles, 0-2 optional fields
         c['kind'] = 'land'
         out.append(c)
+    # GEOS-Chem punch files (the layout, reader and writer checks of C18 on a fresh stream): several categories in one
+    # time step, also with the same tracer number
+    from ..bpchfmt import gen as _bgen
+    for i in range(n // 8):
+        c = _bgen(rng)
+        c['drop_line'] = False
+        c['kind'] = 'bpch'
+        out.append(c)
     return out
 
 
@@ -101,7 +109,9 @@ def _gen_cr(rng, kind):
     order = list(names)
     if rng.random() < 0.5:
         rng.shuffle(order)              # the order in which the input file defines the variables
-    c.update(kind=kind, names=names, order=order, desc=rng.choice(['CAMx_V4.3 CLOUD_RAIN', 'CAMx_V4.2 CLOUD_RAIN', 'CAMx_V6.0 CLOUD_RAIN extra'[:24], 'CAMx CLOUD_RAIN     ', ' CAMx_V4.3 CLOUD_RAIN   ', 'CLOUD_RAIN  ']),
+    c.update(kind=kind, names=names, order=order, desc=rng.choice(['CAMx_V4.3 CLOUD_RAIN', 'CAMx_V4.2 CLOUD_RAIN', 'CAMx_V6.0 CLOUD_RAIN extra'[:24], 'CAMx CLOUD_RAIN     ', ' CAMx_V4.3 CLOUD_RAIN   ', 'CLOUD_RAIN  ',
+                                  # lengths that are no multiple of four bytes: the layout model works in words, these are judged by the oracle alone
+                                  'CAMx_V4.3 CLOUD_RAIN!', 'CLOUD_RAIN']),
              vdtype=rng.choice(['f', 'f', 'd']))
     return c
 
@@ -162,7 +172,17 @@ def _impl_bnd(case):
             open(p, 'wb').write(b)
             f = lateral_boundary(p)
             v = S.bnd_view(f, case)
+            # another boundary file (another grid, other edge definitions) is opened before the first is written back
+            import random as _random
+            other = S.gen_bnd(_random.Random(len(b)))
+            other['nx'], other['ny'] = case['nx'] + 1, case['ny'] + 2
+            other['bdata'] = [[[[0] * ((other['ny'] if e < 2 else other['nx']) * other['nz']) for e in range(4)] for _ in other['species']] for _ in other['tflag']]
+            p2 = p + '.other'
+            open(p2, 'wb').write(S.bnd_encode(other))
+            f2 = lateral_boundary(p2)
+            f2.variables['TFLAG'][:]
             pncgen(f, o, format='camxfiles.lateral_boundary', verbose=0)
+            del f2
             v['hex'] = b.hex()
             v['rewritten'] = open(o, 'rb').read().hex()
             return v
@@ -171,7 +191,7 @@ def _impl_bnd(case):
     except Exception as e:
         return dict(err=type(e).__name__, msg=str(e)[:120])
     finally:
-        for q in (p, o):
+        for q in (p, o, p + '.other'):
             if os.path.exists(q):
                 os.remove(q)
 
@@ -396,6 +416,9 @@ def _oracle_slab(case, res):
 
 
 def impl(case):
+    if case.get('kind') == 'bpch':
+        from . import c18
+        return c18.impl(case)
     if case['kind'] == 'land':
         return L.impl(case)
     if case['kind'] == 'wread':
@@ -427,6 +450,9 @@ def impl(case):
 
 
 def to_line(case, res):
+    if case.get('kind') == 'bpch':
+        from . import c18
+        return c18.to_line(case, res)
     if case['kind'] == 'land':
         return L.to_line(case, res)
     if case['kind'] == 'bnd':
@@ -447,12 +473,17 @@ def to_line(case, res):
 
 
 def agree(case, out, res):
+    if case.get('kind') == 'bpch':
+        from . import c18
+        return c18.agree(case, out, res)
     if case['kind'] == 'land':
         return L.agree(case, out, res)
     if case['kind'] == 'wread':
         if out != 'ok ' + res['hex']:
             return 'the python reference encoder and the Lean wind encoder differ'
         return S.wind_model_diff(case, res['hex'], res['memmap'])
+    if case['kind'] in ('cread', 'cwrite') and len(case['desc']) % 4:
+        return None         # the layout model works in words: such descriptions are judged by the oracle alone
     if case['kind'] == 'cread' and _cr_ambiguous(case):
         return None
     if 'err' in res:
@@ -522,6 +553,9 @@ def _firstdiff(a, b):
 
 
 def oracle(case, res):
+    if case.get('kind') == 'bpch':
+        from . import c18
+        return c18.oracle(case, res)
     """independent python record walker: markers tile the file, header counts match, content recovered"""
     if case['kind'] == 'land':
         return L.oracle_layout(case, res)
@@ -609,7 +643,7 @@ KEY_YEND = 'C08/uamiv-write/end-date-year-rollover'
 
 
 def classify(case, failure, model_out):
-    if case['kind'] in ('swrite', 'sread', 'sslice', 'cwrite', 'cread', 'wwrite', 'wread', 'bnd', 'land'):
+    if case['kind'] in ('swrite', 'sread', 'sslice', 'cwrite', 'cread', 'wwrite', 'wread', 'bnd', 'land', 'bpch'):
         return None
     if failure.startswith('end flag of a step ending at midnight 31 Dec'):
         return KEY_YEND
@@ -624,6 +658,8 @@ def _crosses_2000(case):
 
 
 def nontrivial(case, res):
+    if case.get('kind') == 'bpch':
+        return 'err' not in res and len(case['blocks']) >= 2
     if case['kind'] == 'land':
         return L.nontrivial(case, res)
     if case['kind'] == 'bnd':
@@ -642,6 +678,8 @@ def distribution(recs):
         if c['kind'] == 'land':
             k = 'land_%s_%dopt' % ('new' if c['new'] else 'old', len(c['opts']))
             d[k] = d.get(k, 0) + 1
+        elif c['kind'] == 'bpch':
+            pass
         elif 'name' in c:
             d['name_' + c['name']] = d.get('name_' + c['name'], 0) + 1
         else:
